@@ -155,7 +155,23 @@ def sym_bytes(name, pc=None, maxlen=None):
     ln = z3.BitVec(name + '_len', 64)
     if pc is not None:
         pc.append(z3.ULE(ln, maxlen if maxlen is not None else (1 << 32)))
+        # identity encodes short lengths, so that an id equal to a concrete short string's id has that length
+        pc.append(z3.Extract(255, 248, ident) == z3.If(z3.ULT(ln, 32), z3.Extract(7, 0, ln), z3.BitVecVal(0xff, 8)))
     return Opaque('SymBytes', SymBytesData(id=ident, len=ln))
+
+
+def concrete_bytes_as_sym(agg):
+    """a concrete byte string (< 32 bytes) in the SymBytes representation: id = len || content"""
+    bs = []
+    for f in agg.fields:
+        f = z3.simplify(f)
+        if not z3.is_bv_value(f):
+            return None
+        bs.append(f.as_long())
+    if len(bs) >= 32:
+        return None
+    val = (len(bs) << 248) | int.from_bytes(bytes(bs), 'big')
+    return Opaque('SymBytes', SymBytesData(id=z3.BitVecVal(val, 256), len=z3.BitVecVal(len(bs), 64)))
 
 
 def sym_coindata(name, pc):
@@ -187,4 +203,21 @@ def sym_value(ty, name, st):
     if ty == 'StakeDoc':
         return Agg('StakeDoc', [Agg('Ed25519PK', [z3.BitVec(name + '_pubkey', 256)]), z3.BitVec(name + '_e_start', 64),
                                 z3.BitVec(name + '_e_post_end', 64), coinvalue(z3.BitVec(name + '_syms', 128))])
+    if ty.startswith('(') and ty.endswith(')'):
+        from .mirparse import split_top
+        parts = [p for p in split_top(ty[1:-1]) if p]
+        return Agg('tuple', [sym_value(_norm_ty(p), '%s_%d' % (name, i), st) for i, p in enumerate(parts)])
+    if ty in ('u32', 'u8', 'u16'):
+        return z3.BitVec(name, int(ty[1:]))
+    if ty in ('Vec<u8>', 'Bytes', 'bytes::Bytes'):
+        return sym_bytes(name, pc)
+    if ty == 'Denom':
+        return sym_denom(name, pc)[0]
     raise Inconclusive('no symbolic constructor for type ' + ty)
+
+
+def _norm_ty(p):
+    p = p.strip()
+    if p in ('Vec<u8>', 'bytes::Bytes', 'Bytes'):
+        return 'Vec<u8>'
+    return p.split('::')[-1]
